@@ -6,12 +6,15 @@ import Qhttp.Model.HeaderMap
 namespace Qhttp
 namespace Parser
 
-/-- `Parser::parseHeaderList`: every line is cut at its first ':'; both halves trimmed. -/
+/-- `Parser::parseHeaderList`: every line is cut at its first ':'; both halves trimmed; a line
+    whose name is empty after trimming is refused (`parts[0].trimmed().isEmpty()`). -/
 def parseHeaderList : List Bytes → HeaderMap → Option HeaderMap
   | [], m => some m
   | line :: rest, m =>
     match split [COLON] 1 line with
-    | [n, v] => parseHeaderList rest (HeaderMap.insert (trim n) (trim v) m)
+    | [n, v] =>
+      if (trim n).isEmpty then none
+      else parseHeaderList rest (HeaderMap.insert (trim n) (trim v) m)
     | _ => none
 
 /-- `Parser::parseHeaders`: lines by CRLF, first line into at most three parts by ' '. -/
